@@ -216,7 +216,10 @@ def c10(ctx):
     q = ctx.quick
     vecs, _ = tlc_mc(ctx, "MC_Constructible", consts={"MaxDepth": 1 if q else 2}, invariants=["Emit"], workers=8, timeout=3000)
     nests = [{"op": "enc.nest", "form": f, "n": n} for f in ("list", "dict", "grid", "gridmeta", "mixed") for n in (1, 2, 8, 32, 63, 64)]
-    ev1 = hs_run(ctx, vecs + nests, "gen")
+    longs = [{"op": "enc.long", "holder": h, "ch": c, "pad": p, "n": n}
+             for h in ("str", "uri", "refdis", "ref", "symbol", "xstr", "list", "dict", "grid") for c in ("\u00e9", "\u20ac", "\U0001F600")
+             for p in range(4) for n in ((1, 7, 15, 16, 31, 32, 33, 63, 64, 65, 127, 129, 255, 257) if q else tuple(range(1, 70)) + (127, 128, 129, 255, 256, 257, 1023, 1025, 4097, 65537))]
+    ev1 = hs_run(ctx, vecs + nests + longs, "gen")
     ctx.bads += tlc_trace(ctx, "Trace_Enc", ev1, shards=12)
     note_events(ctx, ev1, key=lambda e: [e.get("v"), e.get("form"), e.get("n")])
     # decoder images: everything a decoder accepts from foreign input is offered to both encoders and Display
@@ -283,8 +286,8 @@ def c11(ctx):
                    "row collection exceeds it by kilobytes on the 300-row grids"])
 
 
-def filter_vectors(ctx, mode):
-    vecs, _ = tlc_mc(ctx, "MC_Filter", consts={"Mode": '"%s"' % mode, "Big": "FALSE"}, invariants=["ParseOk", "EvalTotal", "Emit"],
+def filter_vectors(ctx, mode, big=False):
+    vecs, _ = tlc_mc(ctx, "MC_Filter", consts={"Mode": '"%s"' % mode, "Big": "TRUE" if big else "FALSE"}, invariants=["ParseOk", "EvalTotal", "Emit"],
                      workers=8, timeout=3000)
     return vecs
 
@@ -301,7 +304,7 @@ def c07(ctx):
     q = ctx.quick
     ve = strip_numerals(filter_vectors(ctx, "eval"))
     vg = strip_numerals(filter_vectors(ctx, "grid"))
-    vw = strip_numerals(filter_vectors(ctx, "weq"))
+    vw = strip_numerals(filter_vectors(ctx, "weq", big=not q))
     ev1 = hs_run(ctx, ve + vg + vw, "gen")
     ctx.bads += tlc_trace(ctx, "Trace_Filter", ev1, shards=12)
     note_events(ctx, ev1, key=lambda e: [e.get("text"), e.get("rec"), e.get("rows"), e.get("db")])
@@ -355,7 +358,7 @@ def c09(ctx):
              for (o, m, c) in [("(", "a", ")"), ("(", "", ""), ("(", "a", ""), ("a and (", "b", ")"), ("not ", "a", ""), ("a->", "b", ""),
                                ("a or ", "b", ""), ("a and ", "b", ""), ("( ", "a", " )")]
              for n in (1, 10, 100, 127, 128, 129, 1000, 10000, 100000)]
-    vw = strip_numerals(filter_vectors(ctx, "weq"))
+    vw = strip_numerals(filter_vectors(ctx, "weq", big=not q))
     ev1 = hs_run(ctx, vp + muts + bombs + vw, "gen")
     # bombs are dec.bomb events (Trace_Total), the rest filter events (Trace_Filter): split
     evs = read_ndjson(ev1)
